@@ -20,6 +20,7 @@
 from __future__ import print_function
 
 import logging
+import decimal
 logger = logging.getLogger(__name__)
 
 import re
@@ -35,7 +36,7 @@ from spyne.error import ValidationError
 from spyne.error import ResourceNotFoundError
 
 from spyne.model import ByteArray, File, Fault, ComplexModelBase, Array, Any, \
-    AnyDict, Uuid, Unicode
+    AnyDict, Uuid, Unicode, Decimal
 from spyne.model.complex import XmlModifier
 
 from spyne.protocol.dictdoc import DictDocument
@@ -50,6 +51,8 @@ class HierDictDocument(DictDocument):
 
     VALID_UNICODE_SOURCES = (six.text_type, six.binary_type, memoryview,
                                                                 mmap, bytearray)
+    VALID_NUMBER_SOURCES = six.integer_types + (float, decimal.Decimal,
+                                               six.text_type, six.binary_type)
 
     from_serstr = DictDocument.from_unicode
     to_serstr = DictDocument.to_unicode
@@ -225,6 +228,13 @@ class HierDictDocument(DictDocument):
                                                 self.VALID_UNICODE_SOURCES) \
                         and issubclass(cls, self.stringified_types + (ByteArray,)) \
                         and getattr(cls_attrs, 'serialize_as', None) is None:
+                    raise ValidationError([key, inst])
+
+                # a number arrives as a number or as its text: a tuple, a date,
+                # an extension object would only fail when it is compared with
+                # the range facets
+                if inst is not None and issubclass(cls, Decimal) \
+                        and not isinstance(inst, self.VALID_NUMBER_SOURCES):
                     raise ValidationError([key, inst])
 
                 if cls_attrs.empty_is_none and inst in (u'', b''):
